@@ -140,3 +140,34 @@ Definition to_opt_iter_m {T I} (to_opt : T -> option I) (l : list T) : list (opt
 Definition iter_cast_m {T U} (cast : T -> U) (l : list T) : list U := map cast l.
 Definition opt_iter_cast_m {T I U} (to_opt : T -> option I) (cast : I -> U) (l : list T) : list (option U) :=
   map (fun v => option_map cast (to_opt v)) l.
+
+(* ==== audit YB (additive): accessors the C07 statement names that had no model function of their own =============== *)
+(* the well-formedness of a VecDeque INCLUDING the deque without allocation (capacity 0, head 0), which `ring_wf`
+   (head < cap) excludes; head = cap > 0 never occurs in std but is harmless ((cap + i) mod cap = i)                 *)
+Definition ring_wf0 {A} (r : ring A) : Prop := rlen r <= rcap r /\ rhead r <= rcap r.
+(* vecdeque.rs titer(): VecDeque::iter() walks as_slices().0 and then as_slices().1 *)
+Definition ring_iter {A} (r : ring A) : list A := fst (ring_slices r) ++ snd (ring_slices r).
+(* a freshly collected output container: VecDeque::from(Vec) (head 0), Array1::from_vec (offset 0, stride 1) *)
+Definition ring_of_list {A} (l : list A) : ring A := {| rbuf := l; rhead := 0; rlen := length l |}.
+Definition strided_of_list {A} (l : list A) : strided A := {| sbase := l; soff := 0; sstep := 1%Z; slen := length l |}.
+(* the reversed view s![..;-1] of a view: starts at the last element, stride negated *)
+Definition strided_rev {A} (s : strided A) : strided A :=
+  {| sbase := sbase s; soff := Z.to_nat (spos s (slen s - 1)); sstep := (- sstep s)%Z; slen := slen s |}.
+(* the stepped view s![..;k], k >= 1: every k-th element, ceil(len / k) of them *)
+Definition strided_step {A} (s : strided A) (k : nat) : strided A :=
+  {| sbase := sbase s; soff := soff s; sstep := (sstep s * Z.of_nat k)%Z; slen := (slen s + k - 1) / k |}.
+(* Polars slice keeps a chunked layout: skip `a` elements, then take `b - a` *)
+Fixpoint chunked_skip {A} (c : chunked A) (a : nat) : chunked A :=
+  match c with
+  | [] => []
+  | ch :: rest => if a <? length ch then skipn a ch :: rest else chunked_skip rest (a - length ch)
+  end.
+Fixpoint chunked_take {A} (c : chunked A) (n : nat) : chunked A :=
+  match c with
+  | [] => []
+  | ch :: rest => if n <=? length ch then [firstn n ch] else ch :: chunked_take rest (n - length ch)
+  end.
+Definition chunked_slice_chunks {A} (c : chunked A) (a b : nat) : chunked A := chunked_take (chunked_skip c a) (b - a).
+(* the logical sequence of ANY view given by (len, uget): what a generic algorithm written against Vec1View sees *)
+Definition view_seq {A} (len : nat) (uget : nat -> option A) : list A :=
+  flat_map (fun i => match uget i with Some x => [x] | None => [] end) (seq 0 len).
